@@ -645,7 +645,7 @@ func scenarios(r *eng.Run) []*vexp.Scenario {
 		}
 		out = append(out, sc)
 	}
-	return out
+	return append(out, sessScenarios(r)...)
 }
 
 func main() {
